@@ -828,13 +828,17 @@ fn env_in_token(token: &str) -> bool {
     // do not expand env in a command substitution, e.g.:
     // - echo $(echo '$HOME')
     // - VERSION=$(foobar -h | grep 'version: v' | awk '{print $NF}')
-    let ptn_cmd_sub1 = format!(r"^{}=`.*`$", ptn_env_name);
-    let ptn_cmd_sub2 = format!(r"^{}=\$\(.*\)$", ptn_env_name);
-    if libs::re::re_contains(token, &ptn_cmd_sub1)
-        || libs::re::re_contains(token, &ptn_cmd_sub2)
-        || libs::re::re_contains(token, r"^\$\(.+\)$")
-    {
-        return false;
+    // (one substitution, not the stretch from the first `$(` of the token
+    // to its last `)`: a reference between two substitutions is expanded)
+    let ptn_assign = format!(r"^{}=", ptn_env_name);
+    let value = match Regex::new(&ptn_assign).ok().and_then(|re| re.find(token)) {
+        Some(m) => &token[m.end()..],
+        None => token,
+    };
+    if let Some((head, _, tail)) = split_first_substitution(value) {
+        if head.is_empty() && tail.is_empty() {
+            return false;
+        }
     }
 
     // for cmd-line like `alias foo='echo $PWD'`
